@@ -69,7 +69,7 @@ Definition Gvt : list (list Z) :=
 Definition Gtd : list td :=
   flat_map (fun vt => flat_map (fun table => flat_map (fun tsize => map (fun vsize =>
     {| t_o := 0; t_end := 20; t_ttl := 10; t_vtable := vt; t_table := table; t_tsize := tsize; t_vsize := vsize |})
-    [0; 4; 6; 8; 10; 65534]) [0; 4; 8; 9; 12; 65535]) [0; 8; 12; 4294967292]) [0; 2].
+    [4; 6; 8; 10; 0; 65534]) [12; 8; 4; 9; 0; 65535]) [8; 12; 0; 4294967292]) [0; 2].
 Definition Gid : list Z := [0; 1; 2; 3; 4; 32765; 32766; 32767; 65533; 65534; 65535].
 Definition Greq : list Z := [0; 1; -1].
 Definition td_args (d : td) : list Z := [t_vtable d; t_table d; t_tsize d; t_vsize d].
@@ -107,9 +107,9 @@ Definition Gsv : list (list Z) :=
     [4; 0; 0; 0; 0; 0; 0; 0; 1; 0; 0; 0; 9; 0; 0; 0; 0; 0; 0; 0];
     [8; 0; 0; 0; 0; 0; 0; 0; 255; 255; 255; 255; 0; 0; 0; 0];
     [] ].
-Definition Ge : list Z := [0; 4; 7; 8; 12; 13; 16; 20; 4294967295].
+Definition Ge : list Z := [16; 12; 8; 20; 4; 7; 13; 0; 4294967295].
 Definition Gbase : list Z := [0; 4; 8; 4294967292].
-Definition Goff : list Z := [0; 1; 4; 8; 12; 4294967292; 4294967295].
+Definition Goff : list Z := [4; 8; 12; 0; 1; 4294967292; 4294967295].
 
 Definition search_verify_string :=
   first_some (fun l => let b := of_list l in first_some (fun e => first_some (fun base => first_some (fun off =>
@@ -121,4 +121,4 @@ Definition search_verify_vector :=
     first_some (fun es => first_some (fun al => first_some (fun mc =>
       wit l [e; base; off; es; al; mc] (code (vres_of (c_verify_vector (ptr_of b 0 0) e base off es al mc)))
         (code (verify_vector b 0 e base off es al mc)))
-    [0; 1; 2; 4294967295]) [1; 4; 8]) [0; 1; 4; 2147483648]) Goff) Gbase) Ge) Gsv.
+    [2; 1; 0; 4294967295]) [4; 1; 8]) [1; 4; 0; 2147483648]) Goff) Gbase) Ge) Gsv.
